@@ -10,6 +10,9 @@ import io
 import os
 import sysconfig
 import tokenize
+import warnings
+
+warnings.filterwarnings("ignore", category=SyntaxWarning)
 
 from hypothesis import strategies as st
 
